@@ -239,13 +239,23 @@ func c08EveryUnassignedOffered(c *Ctx) {
 func c09NullVsEmpty(c *Ctx) {
 	p := c.P
 	rule := "C09.null"
-	for _, name := range []string{"realDecoder.getBytes", "realDecoder.getVarintBytes"} {
+	for _, name := range []string{"realDecoder.getBytes", "realDecoder.getVarintBytes", "realDecoder.getCompactInt32Array"} {
 		fn := c.NeedFn(rule, name)
 		if fn == nil {
 			continue
 		}
 		reg := WholeFn(fn)
+		marker := int64(-1)
 		lens := reg.Find(p.CallTo("realDecoder.getInt32", "realDecoder.getVarint"))
+		if name == "realDecoder.getCompactInt32Array" {
+			// compact form: the raw uvarint is length+1, 0 is null
+			marker = 0
+			lens = reg.Find(p.CallTo("realDecoder.getUVarint"))
+			if len(lens) == 0 {
+				c.Fail(rule, fn, "nil-only-for-null", nil, name+" does not read the raw uvarint itself (e.g. it goes through getCompactArrayLength, which answers 0 for the null marker 0 AND for the empty array's 1): a null array and an empty one can no longer be told apart — an empty list comes back as nil, and the nil-sensitive encoders write it as null (for AlterPartitionReassignments: 'cancel the reassignment') or refuse it", nil)
+				continue
+			}
+		}
 		if len(lens) == 0 {
 			c.Unresolved(rule, "the length read in "+name)
 			continue
@@ -264,7 +274,7 @@ func c09NullVsEmpty(c *Ctx) {
 			}
 			return false
 		}
-		null := Cmp{token.EQL, isLen, ConstInt(-1)}
+		null := Cmp{token.EQL, isLen, ConstInt(marker)}
 		n := 0
 		for _, s := range reg.Find(IsReturn()) {
 			ret := s.In.(*ssa.Return)
